@@ -10,7 +10,8 @@ import ScrapliModel.Gen.LossMaps
       `close()` sets them to None in every transport (telnet/transport.py:172-180,
       asynctelnet/transport.py:168-182, system/transport.py:154-162, paramiko/transport.py:239-250,
       asyncssh/transport.py:233-247) and so does the timeout decorator (decorators.py:_handle_timeout).
-    * `lossBy`  — the first detectable loss that was delivered.  From then on the sticky flags of
+    * `lossBy`  — the first detectable loss that was delivered (replaced by `read×empty` when a later
+      read meets EOF: the EOF flag then decides).  From then on the sticky flags of
       scrapli (`_eof`, PtyProcess.flag_eof) and of the library (stored reader exception, at_eof) decide:
       table `afterDev`.  A socket.timeout fails the call but does not end the session.
   Layer 2: channel operations as programs over transport calls (get_prompt / send_input /
@@ -80,7 +81,8 @@ def neverData (t : Transport) (o : Outcome) : Bool :=
 
 /-- ... and the session is gone for good.  A socket.timeout of a blocking socket fails the call only; a
     TimeoutError out of an asyncio StreamReader is the kernel's ETIMEDOUT delivered by connection_lost. -/
-def setsLoss (t : Transport) (o : Outcome) : Bool := neverData t o && (o != .timeout || t == .asynctelnet)
+def setsLoss (t : Transport) (o : Outcome) : Bool :=
+  neverData t o && (o != .timeout || t == .asynctelnet) && o != .cmdTimeout
 
 /-! ### layer 1: the transport machine -/
 
@@ -110,12 +112,22 @@ def tAct (t : Transport) (st : TState) (m : Method) (o : Outcome) : Act :=
 def ctrlNext (st : TState) (m : Method) (o : Outcome) : Ctrl :=
   if st.opened && st.lossBy.isNone && m == .read then (o.ctrlAfter).getD st.ctrl else st.ctrl
 
+/-- a read on an already lost session meets EOF (b"") for the first time: from now on the EOF flag
+    (`_eof`, `at_eof`) decides — the state is the one of a session lost by EOF -/
+def eofUpgrade (t : Transport) (st : TState) (m : Method) (o : Outcome) : Bool :=
+  match st.lossBy with
+  | some (lm, lo) =>
+    m == .read && effOutcome t st m o == .empty && !(lm == .read && lo == .empty)
+      && domain t .read .empty && setsLoss t .empty
+  | none => false
+
 /-- `opened` and `lossBy` after the call -/
 def tNext0 (t : Transport) (st : TState) (m : Method) (o : Outcome) : TState :=
   if !st.opened then st
   else
     let st1 : TState :=
       if st.lossBy.isNone && (m == .read || m == .write) && setsLoss t o then { st with lossBy := some (m, o) }
+      else if eofUpgrade t st m o then { st with lossBy := some (.read, .empty) }
       else st
     if m == .close then { st1 with opened := false } else st1
 
@@ -300,6 +312,33 @@ def aliveTotalB (t : Transport) : Bool :=
 def aliveTotal (t : Transport) : Prop := aliveTotalB t = true
 
 instance (t : Transport) : Decidable (aliveTotal t) := inferInstanceAs (Decidable (aliveTotalB t = true))
+
+def Act.isRaiseS : Act → Bool
+  | .raiseS _ => true
+  | _ => false
+
+/-- every read after the loss `(lm, lo)` raises at once -/
+def finalOK (t : Transport) (c : Ctrl) (lm : Method) (lo : Outcome) : Bool :=
+  (postRead t lm lo).all fun o => (after2 t c lm lo .read o).isRaiseS
+
+/-- PROMPTNESS of the rows after the loss `(lm, lo)`: a read raises at once, or it is the one read that
+    meets EOF on a session lost otherwise (`eofUpgrade`) and every read after that raises at once -/
+def promptOK (t : Transport) (c : Ctrl) (lm : Method) (lo : Outcome) : Bool :=
+  !(domain t lm lo && setsLoss t lo) ||
+    (postRead t lm lo).all fun o =>
+      (after2 t c lm lo .read o).isRaiseS ||
+        (o == .empty && !(lm == .read && lo == .empty) && domain t .read .empty && setsLoss t .empty
+          && finalOK t c .read .empty)
+
+/-- decided per transport: after a detectable loss at most ONE read returns without raising -/
+def promptTotalB (t : Transport) : Bool :=
+  Ctrl.all.all fun c => Outcome.all.all fun lo => promptOK t c .read lo && promptOK t c .write lo
+
+def promptTotal (t : Transport) : Prop := promptTotalB t = true
+
+instance (t : Transport) : Decidable (promptTotal t) := inferInstanceAs (Decidable (promptTotalB t = true))
+
+def tbl2 {α : Type} (tbl : List (List α)) (d : α) (i j : Nat) : α := (tbl.getD i []).getD j d
 
 /-- in-domain fresh entries that break totality (witnesses to replay) -/
 def freshBad (t : Transport) : List (Method × Outcome) :=
